@@ -9,6 +9,8 @@ import JunoModel.C13.ProofsCurrent
 import JunoModel.C13.ProofsListen
 import JunoModel.C13.ProofsCommit
 import JunoModel.C13.ProofsSync
+import JunoModel.C13.ProofsSync2
+import JunoModel.C13.ProofsObs
 /-!
 C13 — property theorems (statements only; proofs are in `Proofs*.lean`, `UpTo.lean`,
 `Tendermint.lean`). Every theorem in this module is an obligation listed in evidence/C13.json.
@@ -439,6 +441,40 @@ theorem no_conflicting_vote_after_recovery_tendermint_partial (env : Juno.C12.En
   no_conflict_upTo (tmQTI_replaySafeUpTo env node r hs) (tmQTI_noEquivocation env node) c0 n hist hm
     cont okc
 
+/-- **The state relation of the recovery hypotheses need not be chosen, and its bisimulation property
+need not be assumed.** Observational equivalence (`obsEq M`: no sequence of calls tells two states
+apart by height, started flag or returned actions) is a bisimulation of EVERY machine, and the
+state-relation hypotheses `ReplaySafeRel M r` hold for SOME equivalence `r` iff the three statements
+`ObsSafe M` hold — about observational equivalence of concrete pairs of states: a call without actions
+leaves an indistinguishable state; a future-height message and a lower-height entry commute; after a
+commit, a machine that saw only its own height's entries is indistinguishable from a fresh machine of
+the next height. A machine satisfying the literal hypotheses (the toy machine) satisfies them. -/
+theorem state_relation_is_observational_equivalence {S} (M : Machine S) :
+    Bisim M (obsEq M) ∧ (ObsSafe M ↔ ∃ r, ReplaySafeRel M r) ∧ (ReplaySafe M → ObsSafe M) :=
+  ⟨obsEq_bisim M, obsSafe_iff_exists_rel M, ObsSafe.of_replaySafe⟩
+
+/-- PARTIAL, in its weakest form: the crash theorem for juno's state machine (current code without the
+`TriggerSync` actions, on the states satisfying C12's invariant) with `ObsSafe (tmQTI env node)` as
+the ONLY hypothesis on the machine — no relation to choose, no bisimulation to assume, `NoEquivocation`
+and all ten shape fields proved — and, instead of the discipline `ListenOK`, the fact that the calls
+after the restart are a call sequence of `listen` (`driverSeq`: start first, start after every commit). What is missing is exactly: (1) a call of juno's machine that returns no action
+cannot be noticed by later calls (a rejected message creates at most an empty container); (2) a
+future-height message commutes with a lower-height entry (it only touches `future[h]`); (3)
+`startNewHeight` of a vote counter that only saw height `h` behaves like `VoteCounter.new (h+1)`.
+Tested on the real machine at every crash point (state equality up to empty containers implies
+observational equivalence); false without a replay-stable `Application` (F1, F3). -/
+theorem no_conflicting_vote_after_recovery_tendermint_obs_partial (env : Juno.C12.Env) (node : Nat)
+    (hs : ObsSafe (tmQTI env node)) (c0 : Nat)
+    (n : Node) (hist : List Effect) (hm : Moment (tmQTI env node) c0 n hist)
+    (cont : List Input)
+    (hd : driverSeq (tmQTI env node) true (recover (tmQTI env node) n).1 cont = true) :
+    ∀ v ∈ votesOf hist,
+      ∀ w ∈ votesOf ((recover (tmQTI env node) n).2.1 ++
+        (liveRun (tmQTI env node) (recover (tmQTI env node) n).1 cont).2),
+      ¬ v.conflicts w :=
+  no_conflict_upTo (tmQTI_replaySafeUpTo env node _ hs.rel) (tmQTI_noEquivocation env node) c0 n hist hm
+    cont (driverSeq_listenOK (tmQTI_startsHeights env node) cont _ true (fun hh => by cases hh) hd)
+
 /-- NEGATION for the machine WITH its `TriggerSync` actions (current code): the arguments of
 `TriggerSync` expose the sync bookkeeping (`lastTriggerSync`), which depends on whether a
 quorum-completing future precommit was processed before or after a commit (live order vs the
@@ -531,6 +567,26 @@ theorem block_fetch_only_for_current_height_with_future_quorum (replaying : Bool
     d.lastQuorum ≤ (executeX replaying smHeight d acts).1.lastQuorum :=
   ⟨fun x hx => executeX_fetch_spec replaying smHeight d acts x hx,
    executeX_at_most_one_fetch replaying smHeight d acts, executeX_mono replaying smHeight d acts⟩
+
+/-- **A fetched block is processed like its messages, one by one.** `listen`'s sync branch hands the
+block to `ProcessSync` (the proposal, then every precommit, action lists CONCATENATED) and executes
+the result once; `execute` drops whatever follows a `Commit`. When no call of the block that follows a
+committing call returns anything (`SyncOK`), the machine state and the log / broadcast / timer /
+commit effects are exactly those of `liveRun` over the block's messages — so a history with fetched
+blocks is a history of `liveRun`, to which Parts 1–2 apply. For juno's machine (states satisfying
+C12's invariant `MInv`) `SyncOK` HOLDS for every block `consensus/sync` builds — the block's proposal
+and one fabricated precommit of the same height: if the proposal's call already commits, the machine
+is one height further and the precommit, now of a past height, returns nothing. (Not covered: the
+re-execution of stale actions after a FAILED fetch, `stale_actions_after_failed_fetch_repeat_votes`.) -/
+theorem fetched_block_is_processed_like_its_messages :
+    (∀ {S} (M : Machine S) (st : LState S) (ins : List Input), SyncOK M st.s ins →
+      (listenStep M st (.syncBlock ins)).1.s = (liveRun M st.s ins).1 ∧
+      baseOf (listenStep M st (.syncBlock ins)).2 = (liveRun M st.s ins).2) ∧
+    (∀ (env : Juno.C12.Env) (node : Nat) (m : Juno.C12.Machine), Juno.C12.MInv env m →
+      ∀ (h : Nat) (r : Int) (s : Nat) (vr : Int) (v : Nat) (r' : Int) (s' : Nat) (id : Option Nat),
+      SyncOK (tmQT env node) m [.proposal h r s vr v, .precommit h r' s' id]) :=
+  ⟨fun M st ins h => listenStep_syncBlock_as_liveRun M st ins h,
+   fun env node m hi h r s vr v r' s' id => tm_syncOK_block env node m hi h r s vr v r' s' id⟩
 
 /-- **A failed block fetch re-executes the previous input's actions** (`listen`'s `actions` variable is
 not reset in that branch — the code as it is): the state machine is not called, its state and
@@ -791,18 +847,49 @@ example :
     (onCommit ⟨true, true, .error⟩).2 = [.handover] := by
   decide
 
+-- `fetched_block_is_processed_like_its_messages`: a block (proposal + precommit) reaches the toy
+-- machine in a started height; the precommit's call commits; effects = those of the two messages
+example :
+    let M := toyMachine (fun _ => false) (fun _ => 0)
+    let st : LState Toy := (listenStep M { s := M.init 4, d := {}, last := [] } (.msg .start)).1
+    let blk : List Input := [.proposal 4 0 2 (-1) 7, .precommit 4 0 3 (some 7)]
+    baseOf (listenStep M st (.syncBlock blk)).2 = (liveRun M st.s blk).2 ∧
+      (liveRun M st.s blk).2 = [.append (.proposal 4 0 2 (-1) 7), .flush, .sendPrevote 4 0 (some 7),
+        .append (.precommit 4 0 3 (some 7)), .flush, .deliver 4 7, .prune 4, .flush] := by
+  decide
+
+-- and on juno's machine: the block of height 1 decides the height; the proposal's call does not
+-- commit, the precommit of the sync pseudo-sender (power = total) does
+example :
+    let M := tmQT { env4 with power := fun _ a => if a = 99 then 4 else 1 } 4
+    let m := (M.step (M.init 1) .start).1
+    (syncStep M m [.proposal 1 0 1 (-1) 7, .precommit 1 0 99 (some 7)]).2 =
+      [.writeWAL (.proposal 1 0 1 (-1) 7), .broadcastPrevote 1 0 (some 7),
+       .writeWAL (.precommit 1 0 99 (some 7)), .scheduleTimeout 2 1 0, .commit 1 7] := by
+  decide
+
+-- `state_relation_is_observational_equivalence`: the hypotheses `ObsSafe` are satisfiable by a voting
+-- machine, and observational equivalence identifies states that literal equality keeps apart only when
+-- they behave the same (here: equal states)
+example : ObsSafe (toyMachine (fun _ => false) (fun _ => 0)) :=
+  ObsSafe.of_replaySafe (toy_replaySafe _ _)
+
 /-
-NOT covered by a theorem about the CURRENT code (see notes/C13.md, "Coverage"):
-* `ReplaySafeUpTo` for juno's machine (`…_tendermint_partial` above) — tested by the harness only;
-* recovery theorems for runs that CONTAIN the sync-only steps (a fetched block = `ProcessSync`, whose
-  action list has two log entries; a failed fetch, which appends an entry twice): Part 6 proves
-  what these steps do, `Moment` histories do not include them (tested: sync family of the harness);
-* error returns of `execute` other than a failing `Flush` / a refused commit (`SetWALEntry`,
-  `DeleteWALEntries` failing): harness fault injection + model `stopTrace` only;
+NOT covered by a theorem about the CURRENT code (see notes/C13.md, "Round 5 — limits that remain"):
+* `ObsSafe` for juno's machine (`…_tendermint_obs_partial` above): observational equivalence of three
+  kinds of state pairs — tested by the harness on every crash point, not proved;
+* histories that contain the re-execution of stale actions after a FAILED block fetch (it appends an
+  entry twice): `stale_actions_after_failed_fetch_repeat_votes` proves what the step does, `Moment`
+  histories do not include it (tested: sync family). A fetched BLOCK is covered since round 5
+  (`fetched_block_is_processed_like_its_messages`);
 * the chain advancing without the driver (blocks stored by the sync service while the validator is
   down): only `recovery_equals_live_run`'s resume-height clause holds for arbitrary images;
 * conflicting re-PROPOSALS (only prevotes and precommits are in `votesOf`, as in the property text);
-* `Application.Valid()` changing across the restart (F3) is, like F1, outside `step` being one function.
+* `Application.Valid()` / `Value()` changing across the restart (F1, F3) is outside `step` being one
+  function;
+* a `Flush` that fails INSIDE walstore: the model's store has no failing flush of its own (the failing
+  effect simply does not happen, `stopTrace`); that walstore keeps the acknowledged records then is
+  checked on the real store (fault family `wal-append-*`) and is C14's theorem.
 -/
 
 end Juno.C13.Props
